@@ -44,7 +44,7 @@ static void add_seed_file(int t, const char *path, size_t maxn)
 }
 
 static const char *dict_tok[NT][48] = {
-    { "#JSGF V1.0;", "grammar g;", "public", "<a>", "<b>", "=", ";", "|", "(", ")", "[", "]", "*", "+", "{tag}", "/2/", "/0.5/", "/1e-3/", "/0/", "/5/", "<NULL>", "<VOID>", "import <x.y>;", "//c\n", "/*", "*/", "\"q s\"", "go", "forward", "\xef\xbb\xbf", "<a.b>", "<g.a>", "{", "}", "\\", "/", "<>", "< >", "%s", "<%n>", "%5000d", NULL },
+    { "#JSGF V1.0;", "grammar g;", "public", "<a>", "<b>", "=", ";", "|", "(", ")", "[", "]", "*", "+", "{tag}", "/2/", "/0.5/", "/1e-3/", "/0/", "/5/", "<NULL>", "<VOID>", "import <x.y>;", "//c\n", "/*", "*/", "\"q s\"", "go", "forward", "\xef\xbb\xbf", "<a.b>", "<g.a>", "{", "}", "\\", "/", "<>", "< >", "%s", "<%n>", "%5000d", "<g00000>", "<g00001>", "<g00002>", "<g.g00001>", NULL },
     { "FSG_BEGIN", "FSG_END", "NUM_STATES", "START_STATE", "FINAL_STATE", "TRANSITION", "N", "S", "F", "T", "#", "0", "1", "2", "0.5", "1.0", "1e-10", "go", "forward", "\n", " ", "\t", "-1", "2147483648", "4294967295", "99999999999", "0.0", "1.5", "nan", "inf", "1e400", "FSG_BEGIN x\n", "%s", "%n", "%s%s%s%s", NULL },
     { "go G OW\n", "a AH\n", "a(2) EY\n", "<sil> SIL\n", "##", ";;", "(", ")", "(2)", " ", "\t", "\n", "G", "OW", "QQ", "+NSN+", "SIL", "x(", "x()", "x(2", "(2)", "\r\n", "%s", "%n", "w%sx", NULL },
     { "{", "}", "\"", ":", ",", "true", "false", "null", "samprate", "beam", "hmm", "loglevel", "INFO", "16000", "1e-48", "-1", "\\n", "\\u0041", "\\ud800", "\\", "[", "]", "1e999", "-0", "0x10", "nfft", "dict", "cmn", "lw", " ", "\n", "\"beam\": 1e-48", "beam: 1e-20", "remove_noise: yes", "compallsen", "yes", "no", "\\b", "\x08", "\\b\\b\\b\\b\\b\\b\\b\\b", "\x08\x08\x08\x08\x08\x08\x08\x08", "\\f\\f\\f\\f\\f\\f", "\\u0001\\u0001\\u0001\\u0001", "warp_params", "nfilt", "wlen", NULL },
